@@ -62,8 +62,9 @@ Definition good_state (P : cparams) (sd : side) (s : cst) : bool :=
    then match delivered s, d_pc s, a_pc s with Some ToListener, DDone, ADone => true | _, _, _ => false end
    else true).
 
-Definition fixedP := {| registers_first := true |}.
-Definition oldP := {| registers_first := false |}.
+Definition fixedP := {| registers_first := true; door_before_ack := true |}.
+Definition oldP := {| registers_first := false; door_before_ack := true |}.
+Definition ackFirstP := {| registers_first := true; door_before_ack := false |}.
 
 Lemma closed_fixed_server : closed fixedP ServerMux (all_states fixedP ServerMux) = true. Proof. vm_compute. reflexivity. Qed.
 Lemma closed_fixed_client : closed fixedP ClientMux (all_states fixedP ClientMux) = true. Proof. vm_compute. reflexivity. Qed.
